@@ -66,6 +66,8 @@ var (
 	netflowV9MQCh  = make(chan []byte, 1000)
 
 	mCacheNF9 netflow9.MemCache
+	// set (atomically) once run has loaded mCacheNF9
+	mCacheNF9Loaded int32
 
 	// ipfix udp payload pool
 	netflowV9Buffer = &sync.Pool{
@@ -113,6 +115,7 @@ func (i *NetflowV9) run() {
 	logger.Printf("netflow v9 is running (UDP: listening on [::]:%d workers#: %d)", i.port, i.workers)
 
 	mCacheNF9 = netflow9.GetCache(opts.NetflowV9TplCacheFile)
+	atomic.StoreInt32(&mCacheNF9Loaded, 1)
 
 	go func() {
 		if !opts.ProducerEnabled {
@@ -167,9 +170,12 @@ func (i *NetflowV9) shutdown() {
 	logger.Println("stopping netflow v9 service gracefully ...")
 	time.Sleep(1 * time.Second)
 
-	// dump the templates to storage
-	if err := mCacheNF9.Dump(opts.NetflowV9TplCacheFile); err != nil {
-		logger.Println("couldn't not dump template", err)
+	// dump the templates to storage, unless run has not loaded them yet
+	// (a nil cache would overwrite the saved templates with an empty file)
+	if atomic.LoadInt32(&mCacheNF9Loaded) == 1 {
+		if err := mCacheNF9.Dump(opts.NetflowV9TplCacheFile); err != nil {
+			logger.Println("couldn't not dump template", err)
+		}
 	}
 
 	// logging (the UDP channel is closed by the read loop)
